@@ -136,7 +136,8 @@ def prim_kwargs(sx, i, base_is_unicode, preset=None):
             ('nillable', dict(nillable=False)), ('pk', dict(pk=True)), ('server_default', dict(server_default='x')),
             ('default', dict(default=K))]
     if base_is_unicode:
-        menu = [('max_len', dict(max_len=K + 1)), ('min_len', dict(min_len=K)), ('pattern', dict(pattern='a+'))] + menu[2:]
+        menu = [('max_len', dict(max_len=K + 1)), ('min_len', dict(min_len=K)), ('pattern', dict(pattern='a+'))] + menu[2:] + \
+               [('pattern lifted', dict(pattern=None))]
     return pick(sx, 'kw%d' % i, menu, preset)
 
 
@@ -147,10 +148,12 @@ def cplx_kwargs(sx, i, preset=None):
             ('child_attrs later', dict(child_attrs={'later': dict(min_occurs=1)})),
             ('child_attrs extra', dict(child_attrs={'extra': dict(max_len=3)})),
             ('child_attrs_all', dict(child_attrs_all=dict(min_occurs=1))),
-            ('type_name', dict(type_name='Renamed'))]
+            ('type_name', dict(type_name='Renamed')),
+            ('child_attrs_all + child_attrs extra', dict(child_attrs_all=dict(min_occurs=1), child_attrs={'extra': dict(max_len=3)}))]
     return pick(sx, 'kw%d' % i, menu, preset)
 
 
+PROBES = {}
 PENDING = {}        # id(model) -> {future field name: attrs requested through child_attrs}
 PENDING_ALL = {}    # id(model) -> attrs requested through child_attrs_all
 
@@ -171,6 +174,14 @@ def apply_op(sx, pool, i, kind, preset=None):
                 chk.append(new.Attributes.sqla_column_args[-1].get('server_default') == 'x')
             else:
                 chk.append(sx.eq(getattr(new.Attributes, k), v))
+        if issubclass(new, Unicode) and 'str' in PROBES:
+            # what the derived type enforces is what its attributes say (length facets, whole-string pattern): a facet that
+            # was lifted or replaced no longer decides
+            A, ps = new.Attributes, PROBES['str']
+            want = [len(ps) >= A.min_len, True if isinstance(A.max_len, decimal.Decimal) else len(ps) <= A.max_len]
+            if A.pattern is not None:
+                want.append(sx.matches(A.pattern, ps))
+            chk.append(sx.eq(sx.And(new.validate_string(new, ps), new.validate_native(new, ps)), sx.And(*want)))
         return ('%s.customize(%s)' % (t, label), set(), new, chk)
     if kind == 'cust':
         t = pick(sx, 't%d' % i, [n for n in names if issubclass(pool[n], ComplexModel.__mro__[1]) and not issubclass(pool[n], Array)], preset)
@@ -272,6 +283,8 @@ def _run_history(sx, kinds, preset=None):
     PENDING_ALL.clear()
     pool = fresh_pool()
     probes = {'int': sx.int('probe', -5, 200), 'str': sx.text('probe_s', sx.choose('probe_len', [3] if sx.tier == 'quick' else [0, 3, 9]), alphabet='ab')}
+    PROBES.clear()
+    PROBES.update(probes)
     snaps = {n: snap(sx, m, probes) for n, m in pool.items()}
     ok = [list(pool['X'].get_flat_type_info(pool['X']).keys()) == MIXIN_ORDER]
     desc = []
@@ -321,7 +334,7 @@ def _shards(triples):
     out = []
     for t in triples:
         nt = 8 if t[0] in ('array', 'mandatory') else 6 if t[0] == 'cust' else 4 if t[0] == 'subclass' else 2 if t[0] == 'prim' else 1
-        nk = 7 if t[0] == 'cust' else 8 if t[0] == 'prim' else 1
+        nk = 8 if t[0] == 'cust' else 9 if t[0] == 'prim' else 1
         out += [(t, j, k) for j in range(nt) for k in range(nk)]
     return out
 
